@@ -538,3 +538,99 @@ func runPanicGuard(c *Ctx) {
 		})
 	}
 }
+
+func init() {
+	Register(&Rule{
+		Name:  "R-SPAWN-BOUND",
+		Props: []string{"C15"},
+		Min:   1,
+		Doc: "goroutines follow the program's own limits, not a number the peer wrote: in the receive-side code every loop that starts goroutines (a go statement in its body) and whose trip count derives from an integer read off a stream " +
+			"is reached only past a comparison that rejects counts above a bound (the 16-bit exemption of R-ALLOC does not apply: 65535 parked goroutines are > 130 MiB of stacks for a 3-byte record, F31); " +
+			"channel capacities computed from the same count are covered by the same comparison",
+		Run: runSpawnBound,
+	})
+}
+
+func runSpawnBound(c *Ctx) {
+	p := c.P
+	k := wireKinds(c)
+	bs := boundSpec()
+	nWire := 0
+	for _, f := range p.Funcs() {
+		if !recvSideTransferOrDumb(f) {
+			continue
+		}
+		info := f.Info()
+		cfg := f.CFG()
+		n := 0
+		InspectNoLits(f.Body, func(m ast.Node) bool {
+			var body *ast.BlockStmt
+			var limit ast.Expr
+			var at token.Pos
+			switch s := m.(type) {
+			case *ast.ForStmt:
+				be, ok := ast.Unparen(s.Cond).(*ast.BinaryExpr)
+				if !ok {
+					return true
+				}
+				switch be.Op {
+				case token.LSS, token.LEQ:
+					limit = be.Y
+				case token.GTR, token.GEQ:
+					limit = be.X
+				default:
+					return true
+				}
+				body, at = s.Body, s.Cond.Pos()
+			case *ast.RangeStmt:
+				if t := info.TypeOf(s.X); t == nil || !isIntType(t) {
+					return true
+				}
+				limit, body, at = s.X, s.Body, s.X.Pos()
+			default:
+				return true
+			}
+			spawns := false
+			InspectNoLits(body, func(x ast.Node) bool {
+				if _, ok := x.(*ast.GoStmt); ok {
+					spawns = true
+				}
+				return true
+			})
+			if !spawns {
+				return true
+			}
+			// wire-derived?
+			wire := false
+			ast.Inspect(limit, func(x ast.Node) bool {
+				if e, ok := x.(ast.Expr); ok {
+					switch e.(type) {
+					case *ast.Ident, *ast.SelectorExpr:
+						if k.Of(info, e) == "wire" {
+							wire = true
+						}
+					}
+				}
+				return true
+			})
+			if !wire {
+				return true
+			}
+			n++
+			nWire++
+			key := fmt.Sprintf("spawn/%s#%d", f.Name, n)
+			ref := cfg.Find(at)
+			if !ref.Valid() {
+				c.Unknown(key, at, "cannot locate the loop head in the control-flow graph")
+				return true
+			}
+			lx := types.ExprString(StripConv(info, limit))
+			c.Check(bs.Passed(f, ref, "bounded:"+lx), key, at, "the number of goroutines ("+lx+") is past a comparison that rejects counts above a bound",
+				"a loop starts one goroutine per "+lx+", a count the peer wrote on the stream, with no dominating upper bound: a 3-byte DataStreams record starts 65535 goroutines (and channels of a multiple of that size) - memory out of proportion to the bytes received")
+			return true
+		})
+	}
+	if nWire == 0 {
+		c.Bad("spawn/none", token.NoPos, "found no goroutine-starting loop with a stream-derived trip count (the data-stream readers of RecvManifestMultiStream are started per announced stream)")
+	}
+}
